@@ -3,6 +3,8 @@
 package main
 
 import (
+	"math"
+	"sort"
 	"time"
 	"verif/lib/wraps"
 
@@ -25,6 +27,43 @@ func main() {
 	res := seqmc.Explore(r, seqmc.Config{Name: "map-sequential", New: func() seqmc.Sys {
 		return maph.New(keys)
 	}})
+	// keys that are not equal to themselves (NaN): every Store makes a new entry that no Load, Delete or
+	// LoadOrStore can ever name again, but Range must still visit each of them ("every key present for
+	// the whole call"), before and after the entries are promoted to the read-only map
+	for _, warm := range []int{0, 1, 40} {
+		var m sync2.Map[float64, int]
+		nan := math.NaN()
+		m.Store(nan, 1)
+		m.Store(1.5, 3)
+		m.Store(nan, 2)
+		if _, loaded := m.LoadOrStore(nan, 4); loaded {
+			r.Report(ev.Violation{Sig: "family|nan-keys", Msg: "LoadOrStore(NaN) found an entry (NaN is equal to nothing)", Replay: map[string]any{"family": "nan-keys"}})
+		}
+		for i := 0; i < warm; i++ {
+			m.Load(1.5)
+			m.Load(nan)
+		}
+		m.Delete(nan)
+		for pass := 0; pass < 2; pass++ {
+			var vals []int
+			nans := 0
+			m.Range(func(k float64, v int) bool {
+				if k != k {
+					nans++
+				}
+				vals = append(vals, v)
+				return true
+			})
+			sort.Ints(vals)
+			if nans != 3 || fmt.Sprint(vals) != "[1 2 3 4]" {
+				r.Report(ev.Violation{Sig: "family|nan-keys", Msg: fmt.Sprintf("a map holding three NaN keys (values 1, 2, 4) and 1.5 (value 3), %d Loads before: Range visited %d NaN keys and the values %v", 2*warm, nans, vals), Replay: map[string]any{"family": "nan-keys", "loads_before": 2 * warm}})
+				break
+			}
+		}
+		if _, ok := m.Load(nan); ok {
+			r.Report(ev.Violation{Sig: "family|nan-keys", Msg: "Load(NaN) found an entry", Replay: map[string]any{"family": "nan-keys"}})
+		}
+	}
 	if cases, msg := wraps.Map(); msg != "" {
 		r.Report(ev.Violation{Sig: "family|wrap", Msg: msg, Replay: map[string]any{"family": "wrap"}})
 	} else {
